@@ -110,6 +110,8 @@ def check_C06(ctx):
 # ------------------------------------------------------------------- C08
 def check_C08(ctx):
     ctx.model_check("MC_Store.tla", q(ctx, "MC_Store_revert.cfg", "MC_Store_revert_thorough.cfg"))
+    # termination of the revert scan (liveness; finds F1 on the pinned control flow)
+    ctx.model_check("RootScan.tla", q(ctx, "MC_RootScan.cfg", "MC_RootScan_thorough.cfg"))
     seq_traces(ctx, "revert", q(ctx, 8, 16), q(ctx, 12, 60), q(ctx, 150, 400), {"C08"}, memevery=5)
     return ctx.finish("model_checking",
                       "exhaustive: MC_Store with flush/revert/reopen (CleanIsDurable after revert); conformance: random histories with many "
@@ -185,7 +187,8 @@ def check_C19(ctx):
 def check_C09(ctx):
     ctx.model_check("MC_Store.tla", q(ctx, "MC_Store_map.cfg", "MC_Store_map_thorough.cfg"))
     for i, prof in enumerate(["durable", "revert", "snap", "copy", "lazy"]):
-        seq_traces(ctx, prof, q(ctx, 2, 6), q(ctx, 10, 50), q(ctx, 150, 400), {"C09"}, seed_off=100 * i)
+        seq_traces(ctx, prof, q(ctx, 2, 6), q(ctx, 10, 50), q(ctx, 150, 400), {"C09"}, seed_off=100 * i,
+                   extra=(["-viewbin", ctx.viewbin] if ctx.viewbin and prof == "durable" else []))
     return ctx.finish("model_checking",
                       "dynamic facet only: every WriteAt/Truncate of every history (durable, revert, snapshot, CopyTo, lazy profiles) is "
                       "checked against AppendOnly (starts at or beyond the last durable root), truncation only by FlushRevert on the "
